@@ -57,9 +57,10 @@ type srvRig struct {
 	dbPath string
 	world  common.WorldState
 
-	mu         sync.Mutex
-	proxyDials []string
-	redirDials []string
+	mu             sync.Mutex
+	clientsStopped bool
+	proxyDials     []string
+	redirDials     []string
 }
 
 type recDialer struct {
@@ -213,12 +214,51 @@ func (g *srvRig) clientConfigs(c cliCfg) (client.LocalConnConfig, client.RemoteC
 	return l, r, a, err
 }
 
-// dialerFor returns the dialer a client of this transport must use.
+// dialerFor returns the dialer a client of this transport must use. It can be stopped: after
+// stopClients every Dial parks forever, which ends the endless retry loop of client.MakeSession
+// (a durably blocked goroutine lets the bubble finish; a retrying one would not).
 func (g *srvRig) dialerFor(transport string) common.Dialer {
+	var inner common.Dialer = g.lis
 	if transport == "cdn" {
-		return g.cdnL
+		inner = g.cdnL
 	}
-	return g.lis
+	return &stopDialer{g: g, inner: inner}
+}
+
+type stopDialer struct {
+	g     *srvRig
+	inner common.Dialer
+}
+
+func (d *stopDialer) Dial(network, address string) (net.Conn, error) {
+	d.g.mu.Lock()
+	stopped := d.g.clientsStopped
+	d.g.mu.Unlock()
+	if stopped {
+		<-make(chan struct{}) // park forever
+	}
+	return d.inner.Dial(network, address)
+}
+
+func (g *srvRig) stopClients() {
+	g.mu.Lock()
+	g.clientsStopped = true
+	g.mu.Unlock()
+}
+
+// makeSession runs client.MakeSession; nil means it did not get its connections established by
+// the time every goroutine was blocked (MakeSession itself retries forever).
+func (g *srvRig) makeSession(remote client.RemoteConnConfig, auth client.AuthInfo, transport string) *mux.Session {
+	ch := make(chan *mux.Session, 1)
+	go func() { ch <- client.MakeSession(remote, auth, g.dialerFor(transport)) }()
+	vk.Wait()
+	select {
+	case s := <-ch:
+		return s
+	default:
+		g.stopClients()
+		return nil
+	}
 }
 
 // echoProxy serves the proxy side: every connection echoes what it receives.
